@@ -30,6 +30,25 @@ Proof. exact handled_once. Qed.
 
 (* BatchTell is the loop "for m in messages: Tell m": the same sender program. *)
 
+(* Two mailboxes (system mailbox drained first): for EVERY routing decision of doReceive, the messages of
+   one sender that are routed to the user mailbox are handled in send order, whatever else anybody sends. *)
+Theorem C03_user_routed_fifo : forall (kind_of : nat -> nat -> nat) (to_system : nat -> bool) s t,
+  rreach kind_of to_system s -> StronglySorted lt (useq kind_of to_system t (rhandled s)).
+Proof. exact user_routed_fifo. Qed.
+
+(* With the routing of the code (Tell, the Request envelope and the Response envelope all go to the user
+   mailbox) a sender mixing Tell / BatchTell / Request keeps its whole send order ... *)
+Theorem C03_tell_and_request_in_send_order : forall kind_of s t,
+  rreach kind_of (fun _ => false) s ->
+  StronglySorted lt (map snd (filter (fun m => Nat.eqb (fst m) t) (rhandled s))).
+Proof. exact tell_and_request_in_send_order. Qed.
+
+(* ... which is exactly what is lost if the Request envelope is routed to the system mailbox. *)
+Theorem C03_request_routing_refuted :
+  exists s, rreach (fun _ q => if Nat.eqb q 1 then 1 else 0)%nat (fun k => Nat.eqb k 1) s /\
+            rhandled s = [(0, 1); (0, 0)]%nat.
+Proof. exact request_overtakes_tell. Qed.
+
 (* Stash: a generation of messages that arrive while the actor stashes and are then unstashed is
    processed exactly once, in arrival order ((1,i) = stashed, (0,i) = processed). *)
 Theorem C03_stash_generation : forall (ids : list Z) lg,
@@ -53,6 +72,9 @@ Print Assumptions C03_fifo_single_queue.
 Print Assumptions C03_fifo_per_sender_queues.
 Print Assumptions C03_handled_were_sent.
 Print Assumptions C03_handled_at_most_once.
+Print Assumptions C03_user_routed_fifo.
+Print Assumptions C03_tell_and_request_in_send_order.
+Print Assumptions C03_request_routing_refuted.
 Print Assumptions C03_stash_generation.
 Print Assumptions C03_unstash_all_in_order.
 Print Assumptions C03_unstash_one_oldest.
